@@ -33,6 +33,26 @@ try:
                             out.update(reproduced=True, inputs={'x0': x0.tolist(), 'g': g.tolist(), 'Delta': Delta}, observed=bad)
                             raise StopIteration
     fn = name.split('/')[0]
+    if fn == 'trsbox_geometry':
+        from dfols import trust_region as TR
+        out = {'replayable': True, 'reproduced': False, 'tried': 0}
+        rng = np.random.default_rng(0)
+        for trial in range(2000):
+            n = int(rng.integers(1, 5))
+            xbase = rng.normal(size=n); lower = xbase - np.abs(rng.normal(size=n)) * rng.choice([0.0, 0.1, 2.0], size=n); upper = xbase + np.abs(rng.normal(size=n)) * rng.choice([0.0, 0.1, 2.0], size=n)
+            g = rng.normal(size=n) * rng.choice([0.0, 1.0], size=n, p=[0.2, 0.8]); c = float(rng.choice([0.0, 1.0, rng.normal()])); Delta = float(rng.choice([1e-2, 0.5, 3.0]))
+            r = TR.trsbox_geometry(xbase.copy(), c, g.copy(), lower.copy(), upper.copy(), Delta)
+            smin = TR.trsbox_linear(g.copy(), lower - xbase, upper - xbase, Delta); smax = TR.trsbox_linear(-g.copy(), lower - xbase, upper - xbase, Delta)
+            vmin, vmax, vr = abs(c + np.dot(g, smin)), abs(c + np.dot(g, smax)), abs(c + np.dot(g, r - xbase))
+            out['tried'] += 1
+            bad = None
+            if not (np.allclose(r, xbase + smin, rtol=1e-12, atol=1e-14) or np.allclose(r, xbase + smax, rtol=1e-12, atol=1e-14)):
+                bad = 'the point returned is neither xbase + smin nor xbase + smax (candidates recomputed with trsbox_linear for g and -g on the box shifted to xbase)'
+            elif vr < max(vmin, vmax) * (1 - 1e-9) - 1e-14:
+                bad = '|c + g.s| of the returned step is %.6g, the other candidate attains %.6g' % (vr, max(vmin, vmax))
+            if bad:
+                out.update(reproduced=True, inputs={'xbase': xbase.tolist(), 'c': c, 'g': g.tolist(), 'lower': lower.tolist(), 'upper': upper.tolist(), 'Delta': Delta}, observed=bad)
+                raise StopIteration
     if fn in ('dykstra', 'pball', 'ctrsbox_pgd', 'ctrsbox_sfista', 'ctrsbox_linear', 'ctrsbox_geometry', 'Controller.trust_region_step', 'model_value'):
         # executable form of the bundle's clauses for these functions, on seeded random convex problems (balls, half-spaces, boxes with a common interior point)
         from dfols import util, trust_region as TR
